@@ -110,13 +110,13 @@ def scalar_arg(form, x):
 
 def index_arg(form, k):
     k = int(k)
-    if form == 'i1s':
+    if form == 'i1s' and -128 <= k <= 127:      # (an index the narrow type cannot hold goes in as a Python int)
         return np.int8(k)
     if form == 'i8s':
         return np.int64(k)
     if form == 'i4s':
         return np.int32(k)
-    if form == 'u1s' and k >= 0:
+    if form == 'u1s' and 0 <= k <= 255:
         return np.uint8(k)
     return k
 
